@@ -22,16 +22,17 @@ func TestProp(t *testing.T) {
 		"default:object", "default:list", "default:string", "default:block-string", "default:null", "default:enum", "default:float",
 		"list-depth:4", "root:query-renamed", "root:mutation-renamed", "root:subscription", "kind:UNION", "scalar-specifiedBy",
 		"description:multi-line", "query:includeDeprecated-true", "query:includeDeprecated-false", "query:includeDeprecated-absent",
-		"query:fragments", "query:strictly-checked",
+		"query:fragments", "query:strictly-checked", "reuse:root-types-change-between-schemas",
 	)
 	r.Regress(dispatch())
 	r.RunProbes(probes())
 	factsPart.Run(r)
 	enginePart.Run(r)
+	reusePart.Run(r)
 }
 
 func TestReplay(t *testing.T) { pbt.StdReplay(t, "C17", dispatch()) }
 
 func dispatch() pbt.Dispatch {
-	return pbt.Dispatch{}.Add(factsPart.Name, factsPart.Handler()).Add(enginePart.Name, enginePart.Handler()).WithProbes(probes())
+	return pbt.Dispatch{}.Add(factsPart.Name, factsPart.Handler()).Add(enginePart.Name, enginePart.Handler()).Add(reusePart.Name, reusePart.Handler()).WithProbes(probes())
 }
